@@ -62,9 +62,9 @@ def stepGen (chk : Bool) (st : List Nat) : List Nat → Option (Bool × List Nat
   | [2, bound, num] =>
       (Loops.tip5_sample_indices (num + 4001) st bound num).map fun r =>
         (!chk || Loops.tip5_sample_indices_ok (num + 4001) st bound num, r.1, r.2)
-  -- `sample_scalars` is not regenerated: the hand model on the decoded state
-  | [3, num] => (sampleScalars tip5Perm (decL st) num).map fun r =>
-      (true, r.1.flatMap fun t => [t.1, t.2.1, t.2.2], encL r.2)
+  -- `sample_scalars` as regenerated (P10): the scalars are lists of three raw words
+  | [3, num] => let r := Loops.tip5_sample_scalars st num
+      some (!chk || Loops.tip5_sample_scalars_ok st num, decL r.1.flatten, r.2)
   | 4 :: input =>
       some (!chk || Loops.tip5_pad_and_absorb_all_ok st (encL input), [], Loops.tip5_pad_and_absorb_all st (encL input))
   | _ => none
